@@ -150,3 +150,15 @@ func SortedNames(m map[string][]byte) []string {
 	sort.Strings(ks)
 	return ks
 }
+
+// DownloadPer is Download with a chosen number of entries per index file (bundles uploaded
+// through core.VerifUpload with that number).
+func DownloadPer(stores context2.Stores, repo, bundleID string, perFile uint, opts ...core.BundleOption) (files map[string][]byte, meta map[string][]byte, err error) {
+	dst := memstore.New("dest")
+	b := NewBundle(stores, repo, dst, 0, bundleID, opts...)
+	err = Recover(func() error {
+		return core.VerifPublish(context.Background(), b, perFile, func(string) (bool, error) { return true, nil })
+	})
+	files, meta = SplitMeta(dst.Snapshot())
+	return files, meta, err
+}
